@@ -345,6 +345,39 @@ func c08Programs() []c08Prog {
 				{"helper reached through a shared list and directly", "BUILD.dawn", "return x + 1", "return x + 2", true},
 				{"comment", "BUILD.dawn", "L = [helper]", "L = [helper]  # shared", false},
 			}})
+	// host values referenced as VALUES: builtins (of the interpreter, of a module, bound methods with their receiver) and
+	// ranges; re-pointing one to another of its kind must show (fixed 6cdac65, d823318).  A bound method of a container
+	// that holds a function reaches that function (the receiver is pickled by value).
+	progs = append(progs,
+		c08Prog{Name: "builtins-as-values", Target: "//:t", Files: map[string]string{"BUILD.dawn": "F = len\nOPS = {\"op\": min}\nRUN = sh.exec\nUP = \"abc\".upper\n\ndef mk(g):\n    def inner(x):\n        return g(x)\n    return inner\n\nC = mk(sorted)\n\n@target()\ndef t(self, d=str):\n    print(F(\"ab\"), OPS[\"op\"](1, 2), RUN, UP(), C([2, 1]), d(1))\n"},
+			Muts: []c08Mut{
+				{"global alias of a builtin re-pointed", "BUILD.dawn", "F = len", "F = str", true},
+				{"builtin in a dict", "BUILD.dawn", "{\"op\": min}", "{\"op\": max}", true},
+				{"module function alias", "BUILD.dawn", "RUN = sh.exec", "RUN = sh.output", true},
+				{"receiver of a bound method", "BUILD.dawn", "\"abc\".upper", "\"xyz\".upper", true},
+				{"method of the same receiver", "BUILD.dawn", "\"abc\".upper", "\"abc\".lower", true},
+				{"captured builtin", "BUILD.dawn", "mk(sorted)", "mk(reversed)", true},
+				{"builtin as default", "BUILD.dawn", "d=str", "d=repr", true},
+				{"comment", "BUILD.dawn", "F = len", "F = len  # alias", false},
+			}},
+		c08Prog{Name: "bound-methods-reaching-functions", Target: "//:t", Files: map[string]string{"BUILD.dawn": "def helper(x):\n    return x + 1\n\ndef second(x):\n    return x + 10\n\nL = [helper, 1]\nIDX = L.index\nD = {\"h\": second}\nGET = D.get\nAGAIN = [IDX, IDX, GET]\n\ndef other():\n    return helper(2)\n\n@target()\ndef t():\n    print(IDX, GET(\"h\")(1), AGAIN, other())\n"},
+			Muts: []c08Mut{
+				{"function reached through the receiver of a bound method and directly", "BUILD.dawn", "return x + 1\n", "return x + 2\n", true},
+				{"function reached only through the receiver of a bound method", "BUILD.dawn", "return x + 10\n", "return x + 20\n", true},
+				{"other method of the same dict", "BUILD.dawn", "GET = D.get", "GET = D.setdefault", true},
+				{"element of the receiver", "BUILD.dawn", "L = [helper, 1]", "L = [helper, 2]", true},
+				{"comment", "BUILD.dawn", "IDX = L.index", "IDX = L.index  # bound", false},
+			}},
+		c08Prog{Name: "ranges", Target: "//:t", Files: map[string]string{"BUILD.dawn": "R = range(3)\n\ndef mk(c):\n    def f():\n        return c\n    return f\n\nC = mk(range(1, 4))\n\n@target()\ndef t(self, d=range(0, 6, 2)):\n    print(R, C(), d)\n"},
+			Muts: []c08Mut{
+				{"global range bound", "BUILD.dawn", "R = range(3)", "R = range(4)", true},
+				{"global range replaced by the list of its elements", "BUILD.dawn", "R = range(3)", "R = [0, 1, 2]", true},
+				{"captured range replaced by the list of its elements", "BUILD.dawn", "mk(range(1, 4))", "mk([1, 2, 3])", true},
+				{"captured range start", "BUILD.dawn", "mk(range(1, 4))", "mk(range(0, 4))", true},
+				{"default range bound", "BUILD.dawn", "d=range(0, 6, 2)", "d=range(0, 8, 2)", true},
+				{"default range step", "BUILD.dawn", "d=range(0, 6, 2)", "d=range(0, 6, 3)", true},
+				{"comment", "BUILD.dawn", "R = range(3)", "R = range(3)  # r", false},
+			}})
 	progs = append(progs, c08ShapePrograms()...)
 	return progs
 }
@@ -431,15 +464,15 @@ func TestVerifC08(t *testing.T) {
 	defer f.Close()
 	line := func(parts ...string) { f.WriteString(strings.Join(parts, "\t") + "\n") }
 
-	// the collection sweep (zz_verif_c08_sweep_test.go) and the schedule families (zz_verif_c08_conc_test.go), each in
-	// one child process of its own; their lines are copied
-	for _, mode := range []string{"sweep", "conc"} {
+	// the collection sweep (zz_verif_c08_sweep_test.go), the value-space families (zz_verif_c08_values_test.go) and the
+	// schedule families (zz_verif_c08_conc_test.go), each in one child process of its own; their lines are copied
+	for _, mode := range []string{"sweep", "values", "conc"} {
 		if only := os.Getenv("VERIF_C08_ONLY"); only != "" && only != mode {
 			continue
 		}
 		root, _ := os.MkdirTemp(base, mode+"-")
 		report := filepath.Join(base, mode+".tsv")
-		run := map[string]string{"sweep": "^TestVerifC08Sweep$", "conc": "^TestVerifC08Conc$"}[mode]
+		run := map[string]string{"sweep": "^TestVerifC08Sweep$", "values": "^TestVerifC08Values$", "conc": "^TestVerifC08Conc$"}[mode]
 		cmd := exec.Command(self, "-test.run", run, "-test.count=1")
 		cmd.Env = append(os.Environ(), "VERIF_C08_CHILD="+mode, "VERIF_ROOT="+root, "VERIF_REPORT="+report, "GOMAXPROCS=8")
 		done := make(chan error, 1)
@@ -597,9 +630,10 @@ var c08FnKeys = []string{"default parameter values", "free variables", "constant
 //	M<ordinal>       another occurrence of an already decoded function environment (a memo reference in the stamp);
 //	                 the ordinal is the number of function environments whose expansion started before that one.
 type c08SkState struct {
-	seen map[any]bool
-	ord  map[*starlark.Dict]int
-	b    strings.Builder
+	seen  map[any]bool
+	seenT map[*starlark.Value]bool
+	ord   map[*starlark.Dict]int
+	b     strings.Builder
 }
 
 func c08Skeleton(v starlark.Value, st *c08SkState) {
@@ -617,6 +651,18 @@ func c08Skeleton(v starlark.Value, st *c08SkState) {
 			}
 			fmt.Fprintf(b, "R%d", ord)
 			return
+		}
+		// The encoder does not memoize tuples, so one decoded tuple OBJECT is met twice only as the decoded form of a
+		// memoized host object -- a builtin, ("dawn","Builtin",(name, receiver)) since 6cdac65, whose receiver can hold
+		// functions -- and the encoder did not walk that a second time.
+		if len(v) > 0 {
+			if st.seenT == nil {
+				st.seenT = map[*starlark.Value]bool{}
+			}
+			if st.seenT[&v[0]] {
+				return
+			}
+			st.seenT[&v[0]] = true
 		}
 		for _, e := range v {
 			c08Skeleton(e, st)
@@ -683,7 +729,8 @@ func c08Skeleton(v starlark.Value, st *c08SkState) {
 // parts are pickled, in order.  Like the encoder it expands a list, dict or set only the first time it meets it (the
 // container is memoized before its elements), a code object only until it has been pickled once (memoized afterwards),
 // tuples every time (not memoized); every occurrence of a function is a mention, and a function's own parts are walked
-// when it is mentioned for the first time.  Identities are 1 + the order of first mention (= recursionPickler's ordinal).
+// when it is mentioned for the first time; a bound method is walked through its receiver (a list, dict, set or tuple)
+// until it has been pickled once.  Identities are 1 + the order of first mention (= recursionPickler's ordinal).
 func c08Reify(root *starlark.Function) string {
 	type node struct {
 		id, label int
@@ -730,6 +777,17 @@ func c08Reify(root *starlark.Function) string {
 			*out = append(*out, id)
 		case *starlark.FunctionCode:
 			codeMentions(v, out)
+		case *starlark.Builtin:
+			// ("dawn","Builtin",(name[, receiver])): the receiver of a bound method is pickled by value when it is plain
+			// data (function.go since 6cdac65); the builtin is memoized once its arguments have been pickled
+			if memo[v] {
+				return
+			}
+			switch recv := v.Receiver().(type) {
+			case starlark.Tuple, *starlark.List, *starlark.Dict, *starlark.Set:
+				mentions(recv, out)
+			}
+			memo[v] = true
 		case starlark.Tuple:
 			for _, e := range v {
 				mentions(e, out)
